@@ -128,8 +128,8 @@ PROPS = {
     },
 
     'C08': {
-        'lean_modules': ['C08', 'C04', 'C08Cuckoo', 'C08TopK'],
-        'required_theorems': ['C08_cuckoo_until_kick', 'C08_topk_no_tie_equal', 'C08_topk_history', 'C08_cms_update', 'C08_cms_count', 'C08_cms_merge', 'C08_hll_update', 'C08_hll_merge', 'C08_bloom_insert', 'C08_bloom_lookup',
+        'lean_modules': ['C08', 'C04', 'C08Cuckoo', 'C08TopK', 'C08Bucket', 'C08ZSet'],
+        'required_theorems': ['C08_cuckoo_until_kick', 'C08_topk_no_tie_equal', 'C08_topk_history', 'C08_bucket_add', 'C08_bucket_remove', 'C08_bucket_lookup', 'C08_topk_insert_cmds', 'C08_cms_update', 'C08_cms_count', 'C08_cms_merge', 'C08_hll_update', 'C08_hll_merge', 'C08_bloom_insert', 'C08_bloom_lookup',
                               'C04_mem_refines_spec', 'C04_redis_refines_spec'],
         'suites': ['lockstep', 'redistie', 'cms', 'hll', 'bloom', 'topk'],
         'level': 'proof',
